@@ -936,3 +936,112 @@ example (sp : Fn ℝ) (x : ℝ) (hx : 0 < (x - 2) / 3) : DerivOK (realFn sp) [.l
   exact (logDet_is_log_deriv sp _).2.1 hx
 
 end AF.C17
+
+/-! # growth: density ↔ CDF for the normal family and its transformed variants -/
+
+namespace AF.C17
+open AF.Msg
+open Real ProbabilityTheory MeasureTheory Set
+
+/-- density ↔ CDF for a `NormalMessage`: if the function the code takes from scipy as `ndtr` has the standard normal
+density as its derivative (the one law of Φ used), then `cdf` has the density the message reports, `exp(logpdf)`,
+as its derivative everywhere -/
+theorem normal_cdf_deriv_is_density (sp : Fn ℝ) (a : Base ℝ) (hn : a.fam = .normal) (hσ : 0 < a.p2)
+    (hΦ : ∀ z : ℝ, HasDerivAt sp.ndtr (Real.exp (-(z ^ 2) / 2) / Real.sqrt (2 * π)) z) (x : ℝ) :
+    HasDerivAt (a.cdf (realFn sp)) (Real.exp (a.logpdf (realFn sp) x)) x := by
+  have hs : a.p2 ≠ 0 := hσ.ne'
+  have hf : a.cdf (realFn sp) = sp.ndtr ∘ (fun y : ℝ => (y - a.p1) / a.p2) := by
+    funext y; simp [Base.cdf, Base.mean, Base.sigma, hn, realFn]
+  have hin : HasDerivAt (fun y : ℝ => (y - a.p1) / a.p2) (1 / a.p2) x :=
+    ((hasDerivAt_id x).sub_const a.p1).div_const a.p2
+  have hcomp := HasDerivAt.comp x (hΦ ((x - a.p1) / a.p2)) hin
+  have hsqrt : √(2 * π * a.p2 ^ 2) = √(2 * π) * a.p2 := by
+    rw [Real.sqrt_mul (by positivity), Real.sqrt_sq hσ.le]
+  have h2pi : √(2 * π) ≠ 0 := by positivity
+  have e : -(x - a.p1) ^ 2 / (2 * a.p2 ^ 2) = -(((x - a.p1) / a.p2) ^ 2) / 2 := by field_simp
+  have hval : gaussianPDFReal a.p1 (varNN a.p2) x =
+      Real.exp (-(((x - a.p1) / a.p2) ^ 2) / 2) / √(2 * π) * (1 / a.p2) := by
+    simp only [gaussianPDFReal, coe_varNN]
+    rw [hsqrt, e]
+    field_simp
+  rw [hf, exp_logpdf_normal sp a hn hσ x, hval]
+  exact hcomp
+
+/-- … and therefore for every transformed variant of it (uniform, log, log10, shifted, any stack): the CDF of the
+transformed message has the density it reports (`exp(factor)`) as its derivative -/
+theorem transformed_normal_cdf_deriv_is_density (sp : Fn ℝ) (m : M ℝ) (hn : m.base.fam = .normal) (hσ : 0 < m.base.p2)
+    (hΦ : ∀ z : ℝ, HasDerivAt sp.ndtr (Real.exp (-(z ^ 2) / 2) / Real.sqrt (2 * π)) z) (x : ℝ)
+    (h : DerivOK (realFn sp) m.trs x) :
+    HasDerivAt (m.cdf (realFn sp)) (Real.exp (m.factor (realFn sp) x)) x :=
+  transformed_cdf_deriv_is_density (realFn sp) m x h (normal_cdf_deriv_is_density sp m.base hn hσ hΦ _)
+
+/-- non-vacuity of the law of Φ: a function with the standard normal density as derivative exists -/
+example : ∃ Φ : ℝ → ℝ, ∀ z : ℝ, HasDerivAt Φ (Real.exp (-(z ^ 2) / 2) / Real.sqrt (2 * π)) z :=
+  ⟨fun z => ∫ t in (0 : ℝ)..z, Real.exp (-(t ^ 2) / 2) / Real.sqrt (2 * π),
+   fun z => (Continuous.integral_hasStrictDerivAt (by fun_prop) 0 z).hasDerivAt⟩
+
+end AF.C17
+
+/-! # growth: moments of the Beta density -/
+
+namespace AF.C17
+open AF.Msg
+open Real ProbabilityTheory MeasureTheory Set
+
+/-- the moments of the Beta density: for `s > -α`, `∫₀¹ p(x) x^s dx = B(α + s, β) / B(α, β)` -/
+theorem beta_density_moment (sp0 : Fn ℝ) (sp : Sp ℝ) (a : Base ℝ) (hb : a.fam = .beta) (hα : 0 < a.p1)
+    (hβ : 0 < a.p2) (s : ℝ) (hs : 0 < a.p1 + s) :
+    ∫⁻ x in Ioo 0 1, ENNReal.ofReal (Real.exp (a.logpdfX (realFn sp0) (realSp sp) x) * x ^ s) =
+      ENNReal.ofReal (ProbabilityTheory.beta (a.p1 + s) a.p2 / ProbabilityTheory.beta a.p1 a.p2) := by
+  have hB : 0 < ProbabilityTheory.beta a.p1 a.p2 := beta_pos hα hβ
+  have hB' : 0 < ProbabilityTheory.beta (a.p1 + s) a.p2 := beta_pos hs hβ
+  have h1 := lintegral_betaPDF_eq_one hs hβ
+  rw [lintegral_betaPDF] at h1
+  have hcongr : ∀ x ∈ Ioo (0 : ℝ) 1,
+      ENNReal.ofReal (Real.exp (a.logpdfX (realFn sp0) (realSp sp) x) * x ^ s) =
+        ENNReal.ofReal (ProbabilityTheory.beta (a.p1 + s) a.p2 / ProbabilityTheory.beta a.p1 a.p2) *
+          ENNReal.ofReal (1 / ProbabilityTheory.beta (a.p1 + s) a.p2 * x ^ (a.p1 + s - 1) * (1 - x) ^ (a.p2 - 1)) := by
+    intro x hx
+    rw [← ENNReal.ofReal_mul (by positivity), exp_logpdf_beta sp0 sp a hb hα hβ x hx.1 hx.2, betaPDFReal,
+      if_pos ⟨hx.1, hx.2⟩]
+    congr 1
+    have : x ^ (a.p1 + s - 1) = x ^ (a.p1 - 1) * x ^ s := by
+      rw [← Real.rpow_add hx.1]; congr 1; ring
+    rw [this]
+    field_simp
+  rw [setLIntegral_congr_fun measurableSet_Ioo hcongr, lintegral_const_mul' _ _ ENNReal.ofReal_ne_top, h1, mul_one]
+
+/-- the mean of the Beta density is the `mean` the message reports, `α / (α + β)` -/
+theorem beta_density_mean (sp0 : Fn ℝ) (sp : Sp ℝ) (a : Base ℝ) (hb : a.fam = .beta) (hα : 0 < a.p1) (hβ : 0 < a.p2) :
+    ∫⁻ x in Ioo 0 1, ENNReal.ofReal (Real.exp (a.logpdfX (realFn sp0) (realSp sp) x) * x) = ENNReal.ofReal a.mean := by
+  have h := beta_density_moment sp0 sp a hb hα hβ 1 (by linarith)
+  simp only [Real.rpow_one] at h
+  rw [h]; congr 1
+  have h1 := (Real.Gamma_pos_of_pos hα).ne'
+  have h2 := (Real.Gamma_pos_of_pos hβ).ne'
+  have h3 := (Real.Gamma_pos_of_pos (add_pos hα hβ)).ne'
+  have hab : a.p1 + a.p2 ≠ 0 := (add_pos hα hβ).ne'
+  simp only [ProbabilityTheory.beta, Base.mean, hb]
+  rw [show a.p1 + 1 + a.p2 = (a.p1 + a.p2) + 1 by ring, Real.Gamma_add_one hα.ne', Real.Gamma_add_one hab]
+  field_simp
+
+/-- its second moment is `mean² + variance` with the `variance` the message reports -/
+theorem beta_density_second_moment (sp0 : Fn ℝ) (sp : Sp ℝ) (a : Base ℝ) (hb : a.fam = .beta) (hα : 0 < a.p1)
+    (hβ : 0 < a.p2) :
+    ∫⁻ x in Ioo 0 1, ENNReal.ofReal (Real.exp (a.logpdfX (realFn sp0) (realSp sp) x) * x ^ (2 : ℝ)) =
+      ENNReal.ofReal (a.mean * a.mean + a.variance (realFn sp0)) := by
+  have h := beta_density_moment sp0 sp a hb hα hβ 2 (by linarith)
+  rw [h]; congr 1
+  have h1 := (Real.Gamma_pos_of_pos hα).ne'
+  have h2 := (Real.Gamma_pos_of_pos hβ).ne'
+  have h3 := (Real.Gamma_pos_of_pos (add_pos hα hβ)).ne'
+  have hab : a.p1 + a.p2 ≠ 0 := (add_pos hα hβ).ne'
+  have hab1 : a.p1 + a.p2 + 1 ≠ 0 := by positivity
+  simp only [ProbabilityTheory.beta, Base.mean, Base.variance, hb]
+  rw [show a.p1 + 2 + a.p2 = ((a.p1 + a.p2) + 1) + 1 by ring, show a.p1 + 2 = (a.p1 + 1) + 1 by ring,
+    Real.Gamma_add_one (by linarith : a.p1 + 1 ≠ 0), Real.Gamma_add_one hα.ne', Real.Gamma_add_one hab1,
+    Real.Gamma_add_one hab]
+  field_simp
+  ring
+
+end AF.C17
